@@ -79,12 +79,9 @@ EvalNode(n, vals, env) ==
                       ELSE Adapt(vals[n.a[4]], n.w)
       [] n.k = "m" -> MemRead(env.mem[n.n], vals[n.a[1]], n.w)
 
-RECURSIVE EvalRec(_,_,_,_)
-EvalRec(nodes, env, i, vals) ==
-    IF i > Len(nodes) THEN vals
-    ELSE Let1(EvalNode(nodes[i], vals, env), LAMBDA v :
-              EvalRec(nodes, env, i + 1, Append(vals, v)))
-EvalAll(nodes, env) == EvalRec(nodes, env, 1, <<>>)
+EvalAll(nodes, env) ==
+    FoldLeft(LAMBDA vals, i : Let1(EvalNode(nodes[i], vals, env), LAMBDA v : Append(vals, v)),
+             <<>>, Idx(Len(nodes)))
 
 (***************************************************************************)
 (* Structure.                                                              *)
